@@ -143,7 +143,11 @@ def execute(program, ctx):
     fault = program.get("fault", {})
     origin = fault.get("origin", "none")
 
+    cond = {}
+
     def fail(inv, what, details):
+        if inv in ("wrong-parameters-returned", "history") and cond.get("args") is not None and ts.ill_conditioned(*cond["args"], observed=cond.get("observed")):
+            raise ts.Unsupported(f"ill-conditioned training (reference not determined to within the tolerance): {inv}")
         raise Violation(ID, inv, f"{ID}.{inv}/{program['eq']}/{program['opt']['kind']}/{program['driver']}/{origin}/{what}", details, None)
 
     carries = []
@@ -169,6 +173,8 @@ def execute(program, ctx):
         fail("stopped-at-wrong-iteration", "generator-advance",
              {"k_fail": kf, "note": "returned generator differs from the reference generator at the abort point"})
     w, R = chosen
+    cond["args"] = (P, n, P.params, P.data, P.param_data, P.obs_data, P.init_opt_state, w, R)
+    cond["observed"] = (ts.maxdiff(o_params, R.params), None)
     kf = R.k_fail
     fired = R.stop_reason == "nan"
     n_run = R.n_run
